@@ -206,6 +206,37 @@ fn order(run: &Run, x: &[f64], tag: &str) {
     }
 }
 
+/// the unique extreme planted at every position of a long vector: min/max (value and index), slice and Vector
+fn planted_extremes(run: &Run, n: usize) {
+    use rayon::prelude::*;
+    let base: Vec<f64> = (0..n).map(|i| ((i * 37) % 101) as f64 * 0.01 - 0.5).collect();
+    (0..n).into_par_iter().for_each(|i| {
+        let mut x = base.clone();
+        for (val, is_min) in [(-7.25, true), (9.5, false)] {
+            x[i] = val;
+            run.case();
+            run.trs(4);
+            run.ok();
+            run.nontrivial(1);
+            let v = Vector::new(x.clone());
+            let r = guard(|| if is_min { (st::min(&x), st::argmin(&x), v.min(), v.argmin()) } else { (st::max(&x), st::argmax(&x), v.max(), v.argmax()) });
+            match r {
+                Ok((a, ia, b, ib)) => {
+                    if a != val || b != val {
+                        run.violate(if is_min { "min" } else { "max" }, || format!("{} elements, the unique {} {} at index {}: slice form returns {}, Vector form {}", n, if is_min { "minimum" } else { "maximum" }, val, i, a, b));
+                    } else if ia != i || ib != i {
+                        run.violate(if is_min { "argmin" } else { "argmax" }, || format!("{} elements, the unique extreme at index {}: got {} / {}", n, i, ia, ib));
+                    } else {
+                        run.regime("planted-extreme");
+                    }
+                }
+                Err(p) => run.violate("order/panic", || format!("{} elements, extreme at {}: {}", n, i, p)),
+            }
+            x[i] = base[i];
+        }
+    });
+}
+
 pub fn run(run: &Run) {
     run.rule("every data vector of length 1..=6 over {-2..2} × shifts {0,2^20,1e8,-1e8,2^40} × scales {1,3,-0.5} and exact power-of-two scalings 2^-200, 2^-30, 2^-27 (with mean 1), 2^100; the same slice passed as both covariance arguments; every pair of vectors of length 2..=4 for the four covariance algorithms × shifts; structured vectors (constant, sorted, reversed, alternating, spike) of every length 1..=40 (80 thorough); every vector of length ≤6 over {-1,-0,+0,1} for order statistics; every increasing edge sequence of length 2..=6 from {0,1,2,3,5,8,13}; exact integer oracle; non-trivial = non-constant data");
     let letters = [-2.0, -1.0, 0.0, 1.0, 2.0];
@@ -276,7 +307,7 @@ pub fn run(run: &Run) {
                 moments(run, x, t);
                 order(run, x, t);
             }
-            for i in (0..n).filter(|i| n <= 96 || *i < 3 || *i + 3 >= n || *i % 509 == 0) {
+            for i in (0..n).filter(|i| n <= 96 || *i < 3 || *i + 3 >= n || *i % 509 == 0 || (1..16).any(|k| (*i as i64 - (k * n / 16) as i64).abs() <= 1)) {
                 let mut spike = vec![1.0 + sh; n];
                 spike[i] = 41.0 + i as f64 + sh;
                 moments(run, &spike, "spike");
@@ -344,6 +375,9 @@ pub fn run(run: &Run) {
                 }
             }
         });
+    }
+    for n in run.tier.pick(vec![1000usize, 4096, 4097, 5000], vec![1000usize, 2048, 4095, 4096, 4097, 5000, 8192, 10_001, 16_384]) {
+        planted_extremes(run, n);
     }
     run.assume("data are multiples of 1/4 below 2^41, so the integer oracle is exact; tolerance 16·n·u·sqrt(var(var+mean²)) for variance-type statistics (the Welford/two-pass bound), (n+2)u·mean|x| for means");
     run.assume("sample_covariance_onepass / _online are held to the sample (n-1) covariance their names state");
